@@ -335,6 +335,32 @@ func (x *runner) routePair(label string, pre, fin, plain []byte, ca *authority) 
 	}
 	x.out.Count(fmt.Sprintf("class:pair-accepted=%v-canonical=%v", accP && accF, cp && cf))
 	key := label + " pre=" + h(pre) + " fin=" + h(fin)
+	if label == "damaged" {
+		// A byte change that lands in a length octet can move field boundaries, and then differently in the two inputs (the bytes that
+		// follow differ: poison vs SCT list). The oracle is about the SAME content on both sides, so for random damage it is applied only when
+		// the independent splicer still sees the same fields and the same other extensions in both inputs.
+		sp, okP := splitTBS(pre)
+		sf, okF := splitTBS(fin)
+		same := okP && okF && bytes.Equal(bytes.Join(sp.pre, nil), bytes.Join(sf.pre, nil)) && bytes.Equal(sp.tail, sf.tail) && sp.hasExts == sf.hasExts
+		if same {
+			var op, of [][]byte
+			for _, e := range sp.exts {
+				if !bytes.Equal(extOID(e), oidPoison) {
+					op = append(op, e)
+				}
+			}
+			for _, e := range sf.exts {
+				if !bytes.Equal(extOID(e), oidSCT) {
+					of = append(of, e)
+				}
+			}
+			same = bytes.Equal(bytes.Join(op, []byte{0xff}), bytes.Join(of, []byte{0xff})) && len(op) == len(sp.exts)-1 && len(of) == len(sf.exts)-1
+		}
+		if !same {
+			x.out.Count("class:pair-damaged-content-not-comparable")
+			return
+		}
+	}
 	if accP != accF {
 		x.out.Fail(key, fmt.Sprintf("the same deviation is accepted on one side only (precert %v, final %v)", accP, accF))
 		return
